@@ -716,7 +716,7 @@ func (s *sim) voteTrigger(b builtVote) string {
 		// stored as FutureVerified, but a view shift into that height starts from an empty view
 		return "C10-F2"
 	}
-	if h > s.vv.Height && pairs > 0 && (s.c.Cfg.ValChange != 0 || s.altUsed) {
+	if h > s.vv.Height && pairs > 0 && (s.c.Cfg.ValChange != 0 || s.altUsed || s.caseHasAlt()) {
 		// verified against the set its PubKeyHash names and stored for a height whose set may differ
 		return "C09-A26"
 	}
@@ -1410,24 +1410,37 @@ func (s *sim) execCrash(op Op) {
 	s.label("crash-now")
 }
 
+// caseHasAlt: some proposed header of this case declares an alternative next validator set
+// (the op list is data, so the interpreter may look ahead).
+func (s *sim) caseHasAlt() bool {
+	if s.hasAlt == 0 {
+		s.hasAlt = 1
+		var scan func(ops []Op)
+		scan = func(ops []Op) {
+			for _, op := range ops {
+				if op.K == "ph" && op.V == phAltNext {
+					s.hasAlt = 2
+				}
+				scan(op.Sub)
+			}
+		}
+		scan(s.c.Ops)
+	}
+	return s.hasAlt == 2
+}
+
 // restartTrigger: findings that a restart on the current store contents would hit.
 func (s *sim) restartTrigger() string {
 	if s.alive && s.cv.Height > 0 {
-		// two precommit targets share the maximal power in the committing round
-		// (only possible with >= 1/3 double-signing power)
+		// the committed block no longer holds the strictly largest precommit power of the
+		// committing round (tie or overtaken by late conflicting precommits: needs >= 1/3 double signers)
 		_, _, per, _, _ := recomputeSummary(s.setFor(s.cv.Height), nil, s.cv.PrecommitProofs)
-		var best *big.Int
-		ties := 0
-		for _, p := range per {
-			switch {
-			case best == nil || p.Cmp(best) > 0:
-				best, ties = p, 1
-			case p.Cmp(best) == 0:
-				ties++
+		committed := s.committingHash()
+		cp := per[committed]
+		for hash, p := range per {
+			if hash != committed && (cp == nil || p.Cmp(cp) >= 0) {
+				return "C09-A27"
 			}
-		}
-		if ties > 1 {
-			return "C09-A27"
 		}
 	}
 	return ""
